@@ -1,4 +1,5 @@
 """C07: mbuff objects are faithful byte-sequence values under any history (DESIGN.md §4 C07, App. A.1)."""
+import os, re, glob, shutil, subprocess, tempfile
 import vf
 
 SRCS = ['c07.c']
@@ -12,11 +13,43 @@ def rebuild_for_replay(rec):
     return build()
 
 
+def line_coverage(chk):
+    exe = build('cov')
+    libdir = os.path.dirname(vf.build_lib('cov')[0])
+    tmp = tempfile.mkdtemp(prefix='gcov-', dir=vf.BUILD)
+    try:
+        # the objects were compiled in a scratch directory that was renamed afterwards: redirect the .gcda files
+        r = vf.run_harness(exe, chk.prop, chk.seed, 120, tier=chk.tier, label='cov', env={'GCOV_PREFIX': tmp, 'GCOV_PREFIX_STRIP': '99'})
+        shutil.rmtree(getattr(r, 'outdir', tmp), ignore_errors=True)    # findings of the unsanitized build are not verdict inputs
+        shutil.copy(os.path.join(libdir, 'mbuff.gcno'), tmp)
+        out = subprocess.run(['gcov', '-o', tmp, os.path.join(vf.SRC, 'src', 'mbuff.c')], cwd=tmp, stdout=subprocess.PIPE,
+                             stderr=subprocess.STDOUT, text=True).stdout
+        m = re.search(r"File '[^']*mbuff\.c'\s*Lines executed:([0-9.]+)% of (\d+)", out)
+        missed = []
+        gp = os.path.join(tmp, 'mbuff.c.gcov')
+        if os.path.exists(gp):
+            for l in open(gp, errors='replace'):
+                a = l.split(':', 2)
+                if len(a) == 3 and a[0].strip() == '#####':
+                    missed.append(int(a[1]))
+        return {'cases': r.cases, 'lines_executed_pct': float(m.group(1)) if m else None, 'lines': int(m.group(2)) if m else None,
+                'lines_never_executed': missed[:200]}
+    finally:
+        shutil.rmtree(tmp, ignore_errors=True)
+
+
 def run(chk):
     exe = build()
     per = chk.pick(250, 6250)          # histories per shard: 4 000 quick, 100 000 thorough
     chk.run('asan', exe, per)
-    q = chk.quick()
+    if not chk.quick():
+        # same generator under pattern-initialised locals (an uninitialised cursor then points nowhere) ...
+        chk.run('asan-pat', build('asan-pat'), 600)
+        # ... and line coverage of mbuff.c under the workload, so a reader sees which lines no execution reached
+        try:
+            chk.cov['gcov_mbuff_c'] = line_coverage(chk)
+        except Exception as e:          # coverage is a report, never a verdict
+            chk.assumptions.append('gcov line coverage not collected: %s' % e)
     chk.rule = ('case = one random history of 1-60 operations over a pool of <=6 mbuff objects (cases 32-35: exhaustive single-step table '
                 'splice/splice_from_ptr/subbuff/subbuff_to_ptr x idx,cnt in [-L-2,L+2] x insert length {0,1,3} for L in {0,1,2,5}); every constructor '
                 '(new, new_from_ptr, new_from_buff, new_from_fd/new_from_fp on a pipe and on a memfd/tmpfile regular file with lengths '
